@@ -63,11 +63,13 @@ def prepare(info, subdir='discharge', lib_text=None, extra_files=None):
     dtext, npred = derived_rs(info)
     open(os.path.join(d, 'src', 'derived.rs'), 'w').write(dtext)
     from . import native
-    open(os.path.join(d, 'src', 'xgen.rs'), 'w').write(native.xgen_rs(info))
+    xg = native.xgen_rs(info)
+    open(os.path.join(d, 'src', 'xgen.rs'), 'w').write(xg)
     shutil.copy(os.path.join(VERIF, 'replayer', 'src', 'xspec.rs'), os.path.join(d, 'src', 'xspec.rs'))
     for name, content in (extra_files or {}).items():
         open(os.path.join(d, 'src', name), 'w').write(content)
-    return d, text + dtext, npred
+    # everything the harness crate is built from goes into the cache key
+    return d, text + dtext + xg + open(os.path.join(VERIF, 'replayer', 'src', 'xspec.rs')).read(), npred
 
 
 def run_harness(d, harness, extra_args=(), timeout=900, mem_gb=12):
@@ -120,8 +122,10 @@ def discharge(harnesses, info, tier):
             r = cache['results'].get(h)
             if r is None:
                 r, out = run_harness(d, 'discharge::' + h)
-                cache['results'][h] = r
-                json.dump(cache, open(cache_p, 'w'), indent=1)
+                if r['ok'] or r['failed']:
+                    # only verdicts are cached: a run that did not complete (harness crate did not build, timeout) is retried
+                    cache['results'][h] = r
+                    json.dump(cache, open(cache_p, 'w'), indent=1)
                 r = dict(r)
                 r['cached'] = False
             else:
